@@ -214,7 +214,7 @@ ssize_t readv(int fd, const struct iovec *iov, int cnt) {
 
 // Mappings of scratch files get a PROT_NONE guard page behind them, so that a read past the (page-rounded) end of the
 // mapped file faults instead of silently reading whatever happens to be mapped next (C17: "... or the mapped file").
-static std::map<void *, size_t> &guarded() { static std::map<void *, size_t> m; return m; }
+static std::map<void *, size_t> &guarded() { static std::map<void *, size_t> m; return m; }          // mapping -> reserved bytes (incl. guard)
 
 void *mmap(void *addr, size_t len, int prot, int flags, int fd, off_t off) {
     if (fd >= 0) {
@@ -241,7 +241,20 @@ void *mmap(void *addr, size_t len, int prot, int flags, int fd, off_t off) {
 
 int munmap(void *addr, size_t len) {
     auto it = guarded().find(addr);
-    if (it != guarded().end()) { size_t total = it->second; guarded().erase(it); return (int) syscall(SYS_munmap, addr, total); }
+    if (it != guarded().end()) {
+        size_t total = it->second, mapped = total - 4096;
+        if (((len + 4095) & ~size_t(4095)) > mapped) {
+            // unmapping more than was mapped removes whatever lies behind the mapping (in production: a neighbouring
+            // mapping, e.g. another container's file): an access outside the mapped file in the sense of C17
+            char msg[200];
+            int n = std::snprintf(msg, sizeof msg, "X munmap of %zu bytes on a file mapping of %zu bytes (page-rounded %zu): reaches beyond the mapping\n", len, mapped, mapped);
+            ssize_t r = syscall(SYS_write, 1, msg, (size_t) n); (void) r;
+            r = syscall(SYS_write, 2, msg, (size_t) n); (void) r;
+            _exit(77);
+        }
+        guarded().erase(it);
+        return (int) syscall(SYS_munmap, addr, total);
+    }
     return (int) syscall(SYS_munmap, addr, len);
 }
 void *mmap64(void *addr, size_t len, int prot, int flags, int fd, off_t off) { return mmap(addr, len, prot, flags, fd, off); }
